@@ -46,6 +46,7 @@
 #include <sys/mman.h>
 #include <unistd.h>
 #include "json_util.h"
+#include "json_visit.h"
 #include "linkhash.h"
 
 #define MAXN 16   /* threads */
@@ -128,7 +129,7 @@ static int parse_held(const char *s, int *held)
 static int parse_op(const char *w, char *op, int *n)
 {
 	char *e;
-	if (w[0] != 'g' && w[0] != 'p' && w[0] != 'w' && w[0] != 'e')
+	if (w[0] != 'g' && w[0] != 'p' && w[0] != 'w' && w[0] != 'e' && w[0] != 'u')
 		return 0;
 	long v = strtol(w + 1, &e, 10);
 	if (e == w + 1 || *e || v < 0 || v >= MAXM)
@@ -273,6 +274,13 @@ static struct json_object *mk_node(int i)
 	}
 }
 
+static int count_cb(json_object *jso, int flags, json_object *parent, const char *key, size_t *index, void *arg)
+{
+	(void)jso; (void)flags; (void)parent; (void)key; (void)index;
+	++*(int *)arg;
+	return JSON_C_VISIT_RETURN_CONTINUE;
+}
+
 static void do_op(char op, int n)
 {
 	struct json_object *o = node[n];
@@ -282,6 +290,14 @@ static void do_op(char op, int n)
 	{
 		if (json_object_put(o) == 1)
 			__atomic_fetch_add(&ret1[n], 1, __ATOMIC_SEQ_CST);
+	}
+	else if (op == 'u')
+	{
+		/* one owner (re)installs the delete callback while other owners acquire / release: whoever releases last
+		 * - after this owner's own release - must see it (json_object_put reads the callback only once it is last) */
+		json_object_set_userdata(o, &destroyed[n], del_cb);
+		/* set_userdata ran the callback it replaced (documented): that was not a destruction */
+		__atomic_fetch_sub(&destroyed[n], 1, __ATOMIC_SEQ_CST);
 	}
 	else if (op == 'e')
 	{
@@ -320,6 +336,10 @@ static void do_op(char op, int n)
 			    !strstr(json_util_get_last_err(), "/nonexistent/thr.json"))
 				bad = 1;
 		}
+		/* ... and a walk over the private tree (json_visit.c keeps no state between calls or between threads) */
+		int seen = 0;
+		if (json_c_visit(o, 0, count_cb, &seen) != 0 || seen < 1)
+			bad = 1;
 		if (bad)
 			__atomic_fetch_add(&xfail, 1, __ATOMIC_SEQ_CST);
 	}
@@ -488,7 +508,14 @@ static int run_seed(void)
 	struct lh_table *tb = lh_kchar_table_new(16, NULL);
 	unsigned long hm = lh_get_hash(tb, keys[0]);
 	lh_table_free(tb);
-	int agree = 1, nf = 0, genok = 1, consumers = 0;
+	/* "at every later time": selecting the other string hash and the default one again (no other thread is running)
+	 * does not touch the seed - tables built before still find their keys */
+	json_global_set_string_hash(JSON_C_STR_HASH_PERLLIKE);
+	json_global_set_string_hash(JSON_C_STR_HASH_DFLT);
+	tb = lh_kchar_table_new(16, NULL);
+	unsigned long hm2 = lh_get_hash(tb, keys[0]);
+	lh_table_free(tb);
+	int agree = hm2 == hm, nf = 0, genok = 1, consumers = 0;
 	for (int t = 0; t < seedN; t++)
 	{
 		if (h_early[t] != hm || h_late[t] != hm)
